@@ -28,7 +28,7 @@ from .core import _b, _z, _zi
 from . import interp as I
 
 Z3_TIMEOUT_MS = int(os.environ.get("PYVC_Z3_TIMEOUT_MS", "10000"))
-CVC5_TIMEOUT_S = int(os.environ.get("PYVC_CVC5_TIMEOUT_S", "30"))
+CVC5_TIMEOUT_S = int(os.environ.get("PYVC_CVC5_TIMEOUT_S", "120"))
 FEAS_TIMEOUT_MS = 2000
 
 
